@@ -118,6 +118,16 @@ def run(prog: Program, _no_c10: bool = False) -> Results:
         value_param = next((p for p in f.params() if "value" in p), "value_expr")
         overwrites = []
         al = Aliases(f.node)
+        from sa.util import FlowAliases
+        fa = FlowAliases(f.node, cfg)
+
+        def spellings(e, al=al, fa=fa, cfg=cfg):
+            """what `e` names: through single-definition locals, and through the one definition that reaches its statement"""
+            out = {al.norm(e)}
+            at = cfg.containing(e)
+            if at is not None:
+                out.add(fa.norm_at(at, e))
+            return out
         for n in cfg.nodes:
             a = n.ast
             if isinstance(a, ast.Assign) and isinstance(a.targets[0], ast.Attribute) and a.targets[0].attr == "value" \
@@ -169,13 +179,13 @@ def run(prog: Program, _no_c10: bool = False) -> Results:
             r2.instances += 1
 
             def not_ref(a_, truth, _names=tuple(by_path)):
-                return isinstance(a_, ast.Call) and callee(a_) == "isinstance" and any(al.norm(a_.args[0]) == f"{x}.value" for x in _names) \
+                return isinstance(a_, ast.Call) and callee(a_) == "isinstance" and any(f"{x}.value" in spellings(a_.args[0]) for x in _names) \
                     and "Identifier" in norm(a_.args[1]) and truth is False
 
             e_not = edges_establishing(cfg, not_ref)
             attempts = [t for t in cfg.nodes if t.ast is not None and t.kind in ("test", "stmt") and
                         any(isinstance(c, ast.Call) and callee(c) == "_assign_through_identifier" and c.args
-                            and any(al.norm(a_) == f"{x}.value" for x in by_path for a_ in c.args)
+                            and any(f"{x}.value" in spellings(a_) for x in by_path for a_ in c.args)
                             for c in ast.walk(t.ast))]
             # the attempt written in place (helper folded into the function): `ref.value = <value>` on the reference itself,
             # made whenever a scope chain is available (`if (scopes := scopes_for_owner(…)):` — without one there is nothing
@@ -185,7 +195,7 @@ def run(prog: Program, _no_c10: bool = False) -> Results:
                                                                         and isinstance(d.value, ast.Call) and callee(d.value) == "scopes_for_owner"}
             inline_attempts = [t for t in cfg.nodes if isinstance(t.ast, ast.Assign) and isinstance(t.ast.targets[0], ast.Attribute)
                                and t.ast.targets[0].attr == "value" and norm(t.ast.value) == value_param
-                               and any(al.norm(t.ast.targets[0].value) == f"{x}.value" for x in by_path)]
+                               and any(f"{x}.value" in spellings(t.ast.targets[0].value) for x in by_path)]
             e_noscopes = edges_establishing(cfg, lambda a_, t_: t_ is False and ((isinstance(a_, ast.Call) and callee(a_) == "scopes_for_owner")
                                                                                   or norm(a_) in scope_vars)) if inline_attempts else []
             attempts = attempts + inline_attempts
